@@ -10,6 +10,22 @@ CHECKS = {
          "Every ordered endpoint pair on a 5x5 (thorough 6x6) lattice, zero-length included, against every half-step probe point and every other segment, in both operand orders, repeated under 5 exact float transforms (2^17, 2^-10, +-2^20 offsets, dyadic offset): raycast on/in, contains-point, collinear-point, intersects (exact + symmetric), contains-segment compared with integer orientation predicates. Complete enumeration, no sampling.",
          "Small-scope: all order types of (segment, point) and (segment, segment) configurations incl. 4 collinear points occur on a 5x5 lattice; coordinates outside the dyadic <=2^20 domain are not covered. Trusted: verif/mc/exact (two formulations cross-checked each run).",
          "DESIGN.md §3 C19"),
+ "C07": ("bounded exhaustive enumeration of documents (grammar seeds + all documents within k token deviations + all short token/byte strings) on the real parser vs a reference reader on encoding/json",
+         "~110 grammar seeds (9 types x list lengths 0-5 x 2-5 ordinates x member sets, nested collections to depth 3, duplicate/reordered members) and every document within 1 token deviation (delete / insert / substitute over a 24-token alphabet, truncate, swap members, duplicate a member), 2 deviations for seeds of <= 26 tokens (thorough <= 64); every token string of length <= 5 (thorough 6) over a 14-token alphabet; every 1-2 byte string and '{'+2 bytes; under 2 option sets. must-accept texts must be accepted with type/nesting/child order/x,y equal to the reference decoding, must-reject texts rejected with no object, and Parse returns exactly one of (object, error).",
+         "Verdicts come from verif/mc/refdoc, written from the statement; texts the statement does not describe (5+ ordinates, null geometry/ordinates, out-of-range numbers, non-standard Circle units) are not judged. Trusted: encoding/json.",
+         "DESIGN.md §3 C07"),
+ "C06": ("bounded exhaustive enumeration of accepted documents x option sets on the real Parse/JSON, fixpoint + independent reference decoding of the output",
+         "The accepted subset of C07's document space plus float seeds (17-digit values, -0, 1e21, 5e-324, 2^53+1, MaxFloat64) x 4 option sets: output is valid JSON, re-parses under the same options to the same Go kind, JSON byte-identical (fixpoint), identical geometry answers (rect/empty/valid/count + 6 predicates x 14 probe objects), and the reference reader finds the same type, x/y bit-for-bit, z/m of the declared dimensionality, child order and foreign members (values, order) in input and output; Features always carry properties.",
+         "Finite numbers only (as stated). Reserved member names are not foreign members. Known finding: the Circle convention drops other members (exact inputs listed).",
+         "DESIGN.md §3 C06"),
+ "C08": ("bounded exhaustive enumeration of documents x option sets (full product on seeds, all sets within 2 option deviations on deviation documents), metamorphic vs the default-option parse",
+         "Seeds (grammar + float + out-of-range-at-every-nesting-position + rectangle/simple-point near misses + Circle features) x the full product of 1,680 option sets x DisableCircleType; every accepted document within 1 token deviation (thorough 2 for small seeds) x the 121 option sets within two single-option deviations of the default: identical JSON, rect, emptiness, validity, point count, 6 predicates x 14 probes; index options keep Go kinds, representation options keep them up to SimplePoint=Point / Rect=Polygon with Circle still a Circle; RequireValid rejects iff a standard-type object of the default parse is invalid and returns only valid objects.",
+         "The default-option parse is the reference. Point count is not compared for representation options (a Rect counts 2 by design; the statement fixes JSON and predicate answers).",
+         "DESIGN.md §3 C08"),
+ "C17": ("bounded exhaustive enumeration of constructor calls (special floats at every pair of ordinate positions, member-text alphabet, nesting) x destination-slice shapes on the real serialisers vs encoding/json reference",
+         "13 constructor templates x 10 special floats (NaN, +-Inf, -0, 5e-324, MaxFloat64, ...) at every single and every pair of ordinate positions; NewFeature x 16 member texts (escaped keys, whitespace, 'feature' key, non-object JSON, non-JSON, truncated) x 23 geometries incl. degenerate constructor arguments, nested 3 deep; parsed seed documents; each x 4 prefixes x 4 spare capacities with a sentinel-filled spare region: JSON()=String()=MarshalJSON()=AppendJSON(nil), AppendJSON(p)=p++bytes with p intact, output is one JSON object of the right type with coordinates of the required nesting depth and no NaN/Inf tokens.",
+         "Member texts with reserved keys are outside the statement. Trusted: encoding/json.",
+         "DESIGN.md §3 C17"),
  "C04": ("bounded exhaustive exploration of insert histories (all short sequences; layout families x sizes x <=1-2 displaced points) x query-rectangle grid x stop positions on the real index code vs brute force; cross-index differential on predicates",
          "Every point sequence <=4 over 3x3 and <=3 over 4x4 (thorough <=5 / <=4) open and closed under {r-tree, quadtree} x MinPoints {1, n, n+1}; 11 layout families (cluster+far outlier, collinear, duplicates, zig-zag, spiral, comb, quadrant midlines, +-1.7e308, grid walk) x 25-29 sizes from 0 to 70,001 crossing the node-split (17, 33), depth-16 overflow and 1/2/4-byte item-encoding thresholds, each small size with one displaced point at every position x 9 (thorough 25) targets and (thorough) two displaced points for n=17,33; every query rectangle of a data-derived grid incl. infinite bounds and 1-ulp neighbours; every early-stop position (sparse for large n). Reported (index, segment) set must equal the definition exactly, once each. Then point/line/rect predicates of family rings and lines must agree across {none, r-tree, quadtree, default} and after Move. The index bytes are decoded to *measure* which encodings occurred (evidence: index_encodings_observed).",
          "Coordinates of the families are the alphabet; layouts not in the families are not covered. Oracle is the definition itself (brute force over SegmentAt(i).Rect()).",
